@@ -723,12 +723,6 @@ package bchutil
 //@   ensures result == c | 32
 //@   modifies nothing
 
-//@ func bchutil.cat
-//@   ensures len(result) == len(x) + len(y)
-//@   ensures forall k :: 0 <= k && k < len(x) ==> result[k] == x[k]
-//@   ensures forall k :: 0 <= k && k < len(y) ==> result[len(x) + k] == old(y[k])
-//@   modifies *x
-
 //@ func bchutil.paramsFromNetID
 //@   ensures result != nil
 //@   ensures result == (netID == chaincfg.TestNet3Params.LegacyPubKeyHashAddrID ? &chaincfg.TestNet3Params : (netID == chaincfg.RegressionNetParams.LegacyPubKeyHashAddrID ? &chaincfg.RegressionNetParams : (netID == chaincfg.SimNetParams.LegacyPubKeyHashAddrID ? &chaincfg.SimNetParams : (netID == chaincfg.TestNet3Params.LegacyScriptHashAddrID ? &chaincfg.TestNet3Params : (netID == chaincfg.RegressionNetParams.LegacyScriptHashAddrID ? &chaincfg.RegressionNetParams : (netID == chaincfg.SimNetParams.LegacyScriptHashAddrID ? &chaincfg.SimNetParams : &chaincfg.MainNetParams))))))
